@@ -108,8 +108,12 @@ def finish(prop, tier, seed, t0, b, results, spec):
                     what, info = ["under AddressSanitizer: " + m[0].strip()[:200] + " (after %d of %d calls)" % (max(0, len(lines2) - 1), len(job2['calls']))], {'asan': True}
                     v = dict(v, job=job2)
             if what is None:
-                lines, crashed, stderr = H.native_replay(b['replay'], v['job'])
-                what, info = judge(v['job'], lines, crashed, stderr)
+                # a replay that depends on the process's random hash keys (slice: HashSet order) gets several tries
+                for _try in range(getattr(spec, 'replay_tries', 1)):
+                    lines, crashed, stderr = H.native_replay(b['replay'], v['job'])
+                    what, info = judge(v['job'], lines, crashed, stderr)
+                    if what:
+                        break
             rec = dict(property=prop, task=r['name'], key=key, clauses=v['clauses'], kind=v['kind'], detail=v.get('detail'),
                        job=v['job'], native=what, info=info)
             if not what:
@@ -488,6 +492,7 @@ class Text20Spec(ExportSpec):
 class SliceSpec(SerdeSpec):
     """C13 on the build-std IR (std HashSet / hashbrown, emap iterator, empty/add/bind)"""
     key_by_clause = False
+    replay_tries = 6
     assumptions = ['the edge structure of the source graph (targets per vertex, no self loops) is fixed per task, so the HashSets of slice_some() hash concrete ids; labels, data and the predicate are symbolic',
                    'the predicate is one solver variable per source edge (labels of one vertex are pairwise distinct, so this is every function of (from, to, label)); the real code branches on the answers',
                    'everything reachable from the start vertex is present (precondition of the property)',
@@ -525,6 +530,7 @@ class SliceSpec(SerdeSpec):
 
 class MergeSpec(SliceSpec):
     """C11 / C12 on the build-std IR (std HashMap/HashSet, recursion, anyhow error text)"""
+    replay_tries = 1
     assumptions = ['the structure of both graphs is fixed per task: present ids, edge targets (trees of up to 3 vertices with out-degree <= 2 on arbitrary ids below the capacity), which vertices of the right graph carry data, the group structure a history of add/bind leaves (connected vertices share a group), the left graph\'s allocator position (every value that leaves enough absent ids)',
                    'symbolic: all labels of both graphs (one kind per task, or any kind), all data bytes (inline 0..8 with padding, heap 9 and 10), the persistence of the left graph\'s vertices; the real code forks on every comparison of a right label with the labels of the left vertex it is mapped to, so every overlap of the two trees is a path',
                    'N=4 so that two labels demanded by the right graph always fit next to two of the left (the property is stated for results within the limits)',
